@@ -737,9 +737,20 @@ impl Transaction {
             });
         }
 
-        self.propagate_governance().await?;
-        self.check_reference_closure().await?;
-        self.check_concept_key_identity().await?;
+        // A refusal from one of the pre-write checks ends the statement before
+        // anything was written, so its shells go with it - exactly as when
+        // planning fails (`abort`). Left behind they are addressable by id
+        // and match a `{state: "pending"}` pattern.
+        let checked = async {
+            self.propagate_governance().await?;
+            self.check_reference_closure().await?;
+            self.check_concept_key_identity().await
+        }
+        .await;
+        if let Err(err) = checked {
+            self.discard_shells().await;
+            return Err(err);
+        }
 
         // Nothing this transaction touched keeps its shell state, and the
         // version rule is applied here so that a clause touching one element
